@@ -346,6 +346,11 @@ pub fn protect_statement_start(source: String) -> String {
     }
 }
 
+/// The source of a lambda body as it has to appear after `=>` inside a larger expression
+pub fn lambda_body_to_source(body: &SpannedExpr, body_source: String) -> String {
+    parenthesize_if(lambda_body_needs_parens(body), body_source)
+}
+
 /// Wrap `source` in parentheses if `needed`
 fn parenthesize_if(needed: bool, source: String) -> String {
     if needed {
